@@ -138,18 +138,37 @@ class Driver:
         self.nops += 1
         if self.srep_T is None:
             return
-        got = self.outer.state
-        exp = self.srep_T.convert(self.sh_state)
-        self._cmp(got, exp, 'outer state')
+        for _ in range(2):
+            got = self.outer.state
+            exp = self.srep_T.convert(self.sh_state)
+            self._cmp(got, exp, 'outer state')
+            for v in got.values():
+                v.fill(-7)  # what the caller does with the returned arrays must not leak into later reads
         self.invariant()
 
     def op_outer_obs(self):
         self.nops += 1
-        got = self.outer.observation
-        exp = self.orep_T.convert(self._shadow_obs())
-        self._cmp(got, exp, 'outer observation')
+        for _ in range(2):
+            got = self.outer.observation
+            exp = self.orep_T.convert(self._shadow_obs())
+            self._cmp(got, exp, 'outer observation')
+            for v in got.values():
+                v.fill(-7)
         self.reads_this_state += 1
         self.invariant()
+
+    def op_swap_rep(self, name):
+        """the outer environment's representations are public attributes: after replacing one, reads use the new one"""
+        self.nops += 1
+        self.outer.observation_representation = make_observation_representation(name, self.E.observation_space)
+        self.orep_T = make_observation_representation(name, self.T.observation_space)
+        if self.srep_T is not None:
+            self.outer.state_representation = make_state_representation(name, self.E.state_space)
+            self.srep_T = make_state_representation(name, self.T.state_space)
+        self.swaps = getattr(self, 'swaps', 0) + 1
+        if self.started:
+            self.op_outer_obs()
+            self.op_outer_state()
 
     def _cmp(self, got, exp, what):
         if sorted(got) != sorted(exp):
@@ -168,6 +187,8 @@ class Driver:
             cl.append('repeated_reads_stochastic')
         if self.stochastic_obs:
             cl.append('stochastic_obs')
+        if getattr(self, 'swaps', 0):
+            cl.append('representation_swapped')
         self.ctx.ev.case(None, nt=(len(cl) > 1 + self.stochastic_obs) or self.repeated_stochastic > 0, classes=cl,
                          key=[self.cfg, self.nops, self.mid_resets, self.repeated_stochastic, id(self) % 10**9],
                          sample={'cfg': self.cfg, 'ops': self.nops, 'mid_resets': self.mid_resets, 'repeated_stochastic_reads': self.repeated_stochastic})
@@ -217,6 +238,11 @@ def machine(tier, ctx, last):
         def outer_obs(self):
             self.op('outer_obs')
 
+        @started
+        @rule(name=st.sampled_from(['default', 'no-overlap', 'compact']))
+        def swap_rep(self, name):
+            self.op('swap_rep', name)
+
     return C04Machine
 
 
@@ -228,5 +254,5 @@ CHECKS = [
     Check('shadow_machine', oracle, machine=machine, examples={'quick': 120, 'thorough': 400}, steps={'quick': 40, 'thorough': 60},
           shards={'quick': 8, 'thorough': 16},
           rule='rule-based machine (reset, step, 1-3 observation reads, state read, outer state / observation reads) on perturbed shipped configurations vs. a functionally driven twin with the same seed',
-          required=['read_before_and_after_change', 'mid_episode_reset', 'repeated_reads_stochastic']),
+          required=['read_before_and_after_change', 'mid_episode_reset', 'repeated_reads_stochastic', 'representation_swapped']),
 ]
